@@ -37,106 +37,87 @@ def Cov (gs : List (List FHit)) (a b : FHit) : Prop := ∃ g ∈ gs, a ∈ g ∧
 /-- every member of every group comes from `S` -/
 def Within (S : List FHit) (gs : List (List FHit)) : Prop := ∀ g ∈ gs, ∀ x ∈ g, x ∈ S
 
-theorem joinGroups_need (a b : FHit) : ∀ gs : List (List FHit),
-    (joinGroups a b gs).2 = false → Cov (joinGroups a b gs).1 a b
-  | [], h => by simp [joinGroups] at h
-  | g :: gs, h => by
-    simp only [joinGroups] at h ⊢
-    split at h
-    · rename_i hc
-      simp only [hc, if_true]
-      exact ⟨addNew (addNew g a) b, by simp, mem_addNew.mpr (Or.inl (mem_addNew.mpr (Or.inr rfl))),
-        mem_addNew.mpr (Or.inr rfl)⟩
-    · rename_i hc
-      simp only [hc, if_false, Bool.false_eq_true] at h ⊢
-      obtain ⟨g', hg', ha, hb⟩ := joinGroups_need a b gs h
-      exact ⟨g', List.mem_cons_of_mem _ hg', ha, hb⟩
+theorem mem_unionNew {acc g : List FHit} {x : FHit} : x ∈ unionNew acc g ↔ x ∈ acc ∨ x ∈ g := by
+  unfold unionNew
+  induction g generalizing acc with
+  | nil => simp
+  | cons a t ih =>
+    simp only [List.foldl_cons, ih, mem_addNew, List.mem_cons]
+    constructor
+    · rintro ((h | h) | h)
+      · exact Or.inl h
+      · exact Or.inr (Or.inl h)
+      · exact Or.inr (Or.inr h)
+    · rintro (h | h | h)
+      · exact Or.inl (Or.inl h)
+      · exact Or.inl (Or.inr h)
+      · exact Or.inr h
 
-theorem joinGroups_mono (a b : FHit) (x y : FHit) : ∀ gs : List (List FHit),
-    Cov gs x y → Cov (joinGroups a b gs).1 x y
-  | [], h => by simpa [joinGroups] using h
-  | g :: gs, ⟨g', hg', hx, hy⟩ => by
-    simp only [joinGroups]
-    rcases List.mem_cons.mp hg' with rfl | hg''
-    · split
-      · exact ⟨addNew (addNew g' a) b, by simp, mem_addNew.mpr (Or.inl (mem_addNew.mpr (Or.inl hx))),
-          mem_addNew.mpr (Or.inl (mem_addNew.mpr (Or.inl hy)))⟩
-      · exact ⟨g', by simp, hx, hy⟩
-    · obtain ⟨g2, hg2, hx2, hy2⟩ := joinGroups_mono a b x y gs ⟨g', hg'', hx, hy⟩
-      split
-      · exact ⟨g2, List.mem_cons_of_mem _ hg2, hx2, hy2⟩
-      · exact ⟨g2, List.mem_cons_of_mem _ hg2, hx2, hy2⟩
+theorem mem_foldl_unionNew {gs : List (List FHit)} {init : List FHit} {x : FHit} :
+    x ∈ gs.foldl unionNew init ↔ x ∈ init ∨ ∃ g ∈ gs, x ∈ g := by
+  induction gs generalizing init with
+  | nil => simp
+  | cons g t ih =>
+    simp only [List.foldl_cons, ih, mem_unionNew, List.mem_cons, exists_eq_or_imp]
+    constructor
+    · rintro ((h | h) | h)
+      · exact Or.inl h
+      · exact Or.inr (Or.inl h)
+      · exact Or.inr (Or.inr h)
+    · rintro (h | h | h)
+      · exact Or.inl (Or.inl h)
+      · exact Or.inl (Or.inr h)
+      · exact Or.inr h
 
-theorem joinGroups_within (a b : FHit) (S : List FHit) (ha : a ∈ S) (hb : b ∈ S) : ∀ gs : List (List FHit),
-    Within S gs → Within S (joinGroups a b gs).1
-  | [], h => by simpa [joinGroups] using h
-  | g :: gs, h => by
-    have hg : ∀ x ∈ g, x ∈ S := h g (by simp)
-    have ih := joinGroups_within a b S ha hb gs (fun g' hg' => h g' (List.mem_cons_of_mem _ hg'))
-    simp only [joinGroups]
-    split
-    · intro g' hg' x hx
-      rcases List.mem_cons.mp hg' with rfl | hg''
-      · rcases mem_addNew.mp hx with h1 | rfl
-        · rcases mem_addNew.mp h1 with h2 | rfl
-          · exact hg x h2
-          · exact ha
-        · exact hb
-      · exact ih g' hg'' x hx
-    · intro g' hg' x hx
-      rcases List.mem_cons.mp hg' with rfl | hg''
-      · exact hg x hx
-      · exact ih g' hg'' x hx
+/-- the pair is processed: different objects sharing more than 20 residues -/
+theorem addPair_skip {gs : List (List FHit)} {a b : FHit} (h : competes a b = false) : addPair gs a b = gs := by
+  have : (a.uid == b.uid || decide (overlapSize a b ≤ 20)) = true := by
+    simp only [competes, overlaps20, Bool.and_eq_false_iff, bne_eq_false_iff_eq, decide_eq_false_iff_not] at h
+    simp only [Bool.or_eq_true, beq_iff_eq, decide_eq_true_eq]
+    rcases h with h | h
+    · exact Or.inl h
+    · exact Or.inr (by omega)
+  simp [addPair, this]
 
-theorem addPair_mono (gs : List (List FHit)) (a b x y : FHit) (h : Cov gs x y) : Cov (addPair gs a b) x y := by
-  simp only [addPair]
-  split
-  · exact h
-  · have hm := joinGroups_mono a b x y gs h
-    cases hj : joinGroups a b gs with
-    | mk gs' need =>
-      rw [hj] at hm
-      simp only
-      split
-      · obtain ⟨g, hg, hx, hy⟩ := hm
-        exact ⟨g, List.mem_append_left _ hg, hx, hy⟩
-      · exact hm
-
-theorem addPair_covers (gs : List (List FHit)) (a b : FHit) (hu : a.uid ≠ b.uid) (ho : 20 < overlapSize a b) :
-    Cov (addPair gs a b) a b := by
-  have hcond : (a.uid == b.uid || decide (overlapSize a b ≤ 20)) = false := by
+theorem addPair_eq {gs : List (List FHit)} {a b : FHit} (h : competes a b = true) :
+    addPair gs a b = gs.filter (fun g => !touches a b g) ++ [(gs.filter (touches a b)).foldl unionNew [a, b]] := by
+  have : (a.uid == b.uid || decide (overlapSize a b ≤ 20)) = false := by
+    simp only [competes, overlaps20, Bool.and_eq_true, bne_iff_ne, decide_eq_true_eq] at h
     simp only [Bool.or_eq_false_iff, beq_eq_false_iff_ne, decide_eq_false_iff_not]
-    exact ⟨hu, by omega⟩
-  simp only [addPair, hcond, Bool.false_eq_true, if_false]
-  have hn := joinGroups_need a b gs
-  cases hj : joinGroups a b gs with
-  | mk gs' need =>
-    rw [hj] at hn
-    simp only
-    cases need with
-    | true => exact ⟨[a, b], by simp, by simp, by simp⟩
-    | false => simpa using hn rfl
+    exact ⟨h.1, by omega⟩
+  simp [addPair, this]
+
+/-- members of the united group -/
+theorem mem_pairing {gs : List (List FHit)} {a b x : FHit} :
+    x ∈ (gs.filter (touches a b)).foldl unionNew [a, b] ↔
+      x = a ∨ x = b ∨ ∃ g ∈ gs, touches a b g = true ∧ x ∈ g := by
+  rw [mem_foldl_unionNew]
+  simp only [List.mem_cons, List.not_mem_nil, or_false, List.mem_filter]
+  constructor
+  · rintro ((h | h) | ⟨g, ⟨hg, ht⟩, hx⟩)
+    · exact Or.inl h
+    · exact Or.inr (Or.inl h)
+    · exact Or.inr (Or.inr ⟨g, hg, ht, hx⟩)
+  · rintro (h | h | ⟨g, hg, ht, hx⟩)
+    · exact Or.inl (Or.inl h)
+    · exact Or.inl (Or.inr h)
+    · exact Or.inr ⟨g, ⟨hg, ht⟩, hx⟩
 
 theorem addPair_within (S : List FHit) (gs : List (List FHit)) (a b : FHit) (ha : a ∈ S) (hb : b ∈ S)
     (h : Within S gs) : Within S (addPair gs a b) := by
-  simp only [addPair]
-  split
-  · exact h
-  · have hw := joinGroups_within a b S ha hb gs h
-    cases hj : joinGroups a b gs with
-    | mk gs' need =>
-      rw [hj] at hw
-      simp only
-      split
-      · intro g hg x hx
-        rcases List.mem_append.mp hg with hg | hg
-        · exact hw g hg x hx
-        · simp at hg; subst hg
-          simp at hx
-          rcases hx with rfl | rfl
-          · exact ha
-          · exact hb
-      · exact hw
+  cases hc : competes a b with
+  | false => rw [addPair_skip hc]; exact h
+  | true =>
+    rw [addPair_eq hc]
+    intro g hg x hx
+    rcases List.mem_append.mp hg with hg | hg
+    · exact h g (List.mem_filter.mp hg).1 x hx
+    · simp only [List.mem_singleton] at hg
+      subst hg
+      rcases mem_pairing.mp hx with rfl | rfl | ⟨g', hg', _, hx'⟩
+      · exact ha
+      · exact hb
+      · exact h g' hg' x hx'
 
 theorem overlappingGroups_within (hits : List FHit) : Within hits (overlappingGroups hits) := by
   unfold overlappingGroups
@@ -146,26 +127,225 @@ theorem overlappingGroups_within (hits : List FHit) : Within hits (overlappingGr
   intro acc' b hb hacc'
   exact addPair_within hits acc' a b ha hb hacc'
 
+/-! ### the groups are the connected components of the competition graph -/
+
+/-- equivalence closure of an edge relation -/
+inductive Eqv (E : FHit → FHit → Prop) : FHit → FHit → Prop
+  | refl (x : FHit) : Eqv E x x
+  | edge {x y : FHit} : E x y → Eqv E x y
+  | symm {x y : FHit} : Eqv E x y → Eqv E y x
+  | trans {x y z : FHit} : Eqv E x y → Eqv E y z → Eqv E x z
+
+theorem Eqv.mono {E E' : FHit → FHit → Prop} (h : ∀ x y, E x y → E' x y) {x y : FHit} (e : Eqv E x y) : Eqv E' x y := by
+  induction e with
+  | refl x => exact Eqv.refl x
+  | edge hxy => exact Eqv.edge (h _ _ hxy)
+  | symm _ ih => exact Eqv.symm ih
+  | trans _ _ ih1 ih2 => exact Eqv.trans ih1 ih2
+
+/-- no hit is in two groups -/
+def Disj (g1 g2 : List FHit) : Prop := ∀ x ∈ g1, x ∉ g2
+
+/-- invariant of the pair loop: the groups partition the hits touched so far into the classes
+    of the edges `E` processed so far -/
+structure GInv (E : FHit → FHit → Prop) (gs : List (List FHit)) : Prop where
+  disj : gs.Pairwise Disj
+  sound : ∀ g ∈ gs, ∀ x ∈ g, ∀ y ∈ g, Eqv E x y
+  complete : ∀ a b, E a b → ∃ g ∈ gs, a ∈ g ∧ b ∈ g
+
+theorem pairwise_mem {α} {R : α → α → Prop} : ∀ {l : List α}, l.Pairwise R → ∀ a ∈ l, ∀ b ∈ l, a = b ∨ R a b ∨ R b a
+  | [], _, a, ha, _, _ => by simp at ha
+  | x :: t, h, a, ha, b, hb => by
+    have hp := List.pairwise_cons.mp h
+    rcases List.mem_cons.mp ha with rfl | ha'
+    · rcases List.mem_cons.mp hb with rfl | hb'
+      · exact Or.inl rfl
+      · exact Or.inr (Or.inl (hp.1 b hb'))
+    · rcases List.mem_cons.mp hb with rfl | hb'
+      · exact Or.inr (Or.inr (hp.1 a ha'))
+      · exact pairwise_mem hp.2 a ha' b hb'
+
+theorem GInv.same_group {E : FHit → FHit → Prop} {gs : List (List FHit)} (inv : GInv E gs) {g g' : List FHit}
+    (hg : g ∈ gs) (hg' : g' ∈ gs) {y : FHit} (hy : y ∈ g) (hy' : y ∈ g') : g = g' := by
+  rcases pairwise_mem inv.disj g hg g' hg' with h | h | h
+  · exact h
+  · exact absurd hy' (h y hy)
+  · exact absurd hy (h y hy')
+
+/-- linked hits are equal or share a group -/
+theorem GInv.of_eqv {E : FHit → FHit → Prop} {gs : List (List FHit)} (inv : GInv E gs) {x y : FHit}
+    (e : Eqv E x y) : x = y ∨ ∃ g ∈ gs, x ∈ g ∧ y ∈ g := by
+  induction e with
+  | refl x => exact Or.inl rfl
+  | edge h => exact Or.inr (inv.complete _ _ h)
+  | symm _ ih =>
+    rcases ih with h | ⟨g, hg, hx, hy⟩
+    · exact Or.inl h.symm
+    · exact Or.inr ⟨g, hg, hy, hx⟩
+  | trans _ _ ih1 ih2 =>
+    rcases ih1 with rfl | ⟨g, hg, hx, hy⟩
+    · exact ih2
+    · rcases ih2 with rfl | ⟨g', hg', hy', hz⟩
+      · exact Or.inr ⟨g, hg, hx, hy⟩
+      · have := inv.same_group hg hg' hy hy'
+        subst this
+        exact Or.inr ⟨g, hg, hx, hz⟩
+
+theorem GInv.congr {E E' : FHit → FHit → Prop} {gs : List (List FHit)} (inv : GInv E gs)
+    (h : ∀ x y, E x y ↔ E' x y) : GInv E' gs :=
+  ⟨inv.disj, fun g hg x hx y hy => (inv.sound g hg x hx y hy).mono (fun a b => (h a b).mp),
+   fun a b hab => inv.complete a b ((h a b).mpr hab)⟩
+
+theorem touches_iff {a b : FHit} {g : List FHit} : touches a b g = true ↔ a ∈ g ∨ b ∈ g := by
+  simp [touches]
+
+/-- processing one competing pair keeps the invariant, for the edges plus that pair -/
+theorem GInv.step {E : FHit → FHit → Prop} {gs : List (List FHit)} (inv : GInv E gs) (a b : FHit)
+    (hc : competes a b = true) : GInv (fun x y => E x y ∨ (x = a ∧ y = b)) (addPair gs a b) := by
+  rw [addPair_eq hc]
+  have hsep : ∀ g ∈ gs.filter (fun g => !touches a b g), g ∈ gs ∧ a ∉ g ∧ b ∉ g := by
+    intro g hg
+    have := List.mem_filter.mp hg
+    have ht : ¬ (a ∈ g ∨ b ∈ g) := by
+      rw [← touches_iff]; simpa using this.2
+    exact ⟨this.1, fun h => ht (Or.inl h), fun h => ht (Or.inr h)⟩
+  -- every member of the united group is linked to `a`
+  have toA : ∀ x ∈ (gs.filter (touches a b)).foldl unionNew [a, b],
+      Eqv (fun x y => E x y ∨ (x = a ∧ y = b)) x a := by
+    intro x hx
+    have hab : Eqv (fun x y => E x y ∨ (x = a ∧ y = b)) a b := Eqv.edge (Or.inr ⟨rfl, rfl⟩)
+    rcases mem_pairing.mp hx with rfl | rfl | ⟨g, hg, ht, hxg⟩
+    · exact Eqv.refl _
+    · exact Eqv.symm hab
+    · rcases touches_iff.mp ht with h | h
+      · exact (inv.sound g hg x hxg a h).mono (fun _ _ => Or.inl)
+      · exact Eqv.trans ((inv.sound g hg x hxg b h).mono (fun _ _ => Or.inl)) (Eqv.symm hab)
+  refine ⟨?_, ?_, ?_⟩
+  · rw [List.pairwise_append]
+    refine ⟨inv.disj.sublist List.filter_sublist, by simp, ?_⟩
+    intro g hg p hp
+    simp only [List.mem_singleton] at hp
+    subst hp
+    obtain ⟨hgs, ha, hb⟩ := hsep g hg
+    intro x hx hxp
+    rcases mem_pairing.mp hxp with rfl | rfl | ⟨g', hg', ht, hxg'⟩
+    · exact ha hx
+    · exact hb hx
+    · have := inv.same_group hgs hg' hx hxg'
+      subst this
+      rcases touches_iff.mp ht with h | h
+      · exact ha h
+      · exact hb h
+  · intro g hg x hx y hy
+    rcases List.mem_append.mp hg with hg | hg
+    · exact (inv.sound g (hsep g hg).1 x hx y hy).mono (fun _ _ => Or.inl)
+    · simp only [List.mem_singleton] at hg
+      subst hg
+      exact Eqv.trans (toA x hx) (Eqv.symm (toA y hy))
+  · intro x y hxy
+    rcases hxy with hxy | ⟨rfl, rfl⟩
+    · obtain ⟨g, hg, hx, hy⟩ := inv.complete x y hxy
+      by_cases ht : touches a b g = true
+      · exact ⟨_, List.mem_append_right _ (List.mem_singleton.mpr rfl),
+          mem_pairing.mpr (Or.inr (Or.inr ⟨g, hg, ht, hx⟩)), mem_pairing.mpr (Or.inr (Or.inr ⟨g, hg, ht, hy⟩))⟩
+      · exact ⟨g, List.mem_append_left _ (List.mem_filter.mpr ⟨hg, by simpa using ht⟩), hx, hy⟩
+    · exact ⟨_, List.mem_append_right _ (List.mem_singleton.mpr rfl), mem_pairing.mpr (Or.inl rfl),
+        mem_pairing.mpr (Or.inr (Or.inl rfl))⟩
+
+/-- the edges of the whole gene: competing pairs of its hits -/
+def GeneEdge (hits : List FHit) (x y : FHit) : Prop := x ∈ hits ∧ y ∈ hits ∧ competes x y = true
+
+theorem foldl_pairs_inv (hits : List FHit) : ∀ (ps done : List (FHit × FHit)) (gs : List (List FHit)),
+    GInv (fun x y => (x, y) ∈ done ∧ competes x y = true) gs →
+    GInv (fun x y => (x, y) ∈ done ++ ps ∧ competes x y = true) (ps.foldl (fun gs p => addPair gs p.1 p.2) gs)
+  | [], done, gs, inv => by simpa using inv
+  | p :: ps, done, gs, inv => by
+    simp only [List.foldl_cons]
+    have e : done ++ p :: ps = (done ++ [p]) ++ ps := by simp
+    rw [e]
+    apply foldl_pairs_inv hits ps (done ++ [p])
+    cases hc : competes p.1 p.2 with
+    | false =>
+      rw [addPair_skip hc]
+      refine inv.congr ?_
+      intro x y
+      simp only [List.mem_append, List.mem_singleton]
+      constructor
+      · rintro ⟨h, hxy⟩; exact ⟨Or.inl h, hxy⟩
+      · rintro ⟨h | h, hxy⟩
+        · exact ⟨h, hxy⟩
+        · rw [← h] at hc; simp only at hc; rw [hc] at hxy; exact absurd hxy (by simp)
+    | true =>
+      refine (inv.step p.1 p.2 hc).congr ?_
+      intro x y
+      simp only [List.mem_append, List.mem_singleton]
+      constructor
+      · rintro (⟨h, hxy⟩ | ⟨rfl, rfl⟩)
+        · exact ⟨Or.inl h, hxy⟩
+        · exact ⟨Or.inr rfl, hc⟩
+      · rintro ⟨h | h, hxy⟩
+        · exact Or.inl ⟨h, hxy⟩
+        · right; rw [← h]; exact ⟨rfl, rfl⟩
+
+theorem overlappingGroups_eq_foldl (hits : List FHit) :
+    overlappingGroups hits =
+      (hits.flatMap fun a => hits.map fun b => (a, b)).foldl (fun gs p => addPair gs p.1 p.2) [] := by
+  unfold overlappingGroups
+  rw [List.foldl_flatMap]
+  congr 1
+  funext gs a
+  rw [List.foldl_map]
+
+/-- the groups of a gene are exactly the classes of its competition graph -/
+theorem overlappingGroups_inv (hits : List FHit) : GInv (GeneEdge hits) (overlappingGroups hits) := by
+  rw [overlappingGroups_eq_foldl]
+  have := foldl_pairs_inv hits (hits.flatMap fun a => hits.map fun b => (a, b)) [] []
+    ⟨List.Pairwise.nil, by intro g hg; simp at hg, by intro a b h; simp at h⟩
+  refine this.congr ?_
+  intro x y
+  simp only [List.nil_append, List.mem_flatMap, List.mem_map, Prod.mk.injEq, GeneEdge]
+  constructor
+  · rintro ⟨⟨a, ha, b, hb, rfl, rfl⟩, hc⟩; exact ⟨ha, hb, hc⟩
+  · rintro ⟨hx, hy, hc⟩; exact ⟨⟨x, hx, y, hy, rfl, rfl⟩, hc⟩
+
 theorem overlappingGroups_covers (hits : List FHit) : ∀ a ∈ hits, ∀ b ∈ hits,
     a.uid ≠ b.uid → 20 < overlapSize a b → Cov (overlappingGroups hits) a b := by
-  unfold overlappingGroups
-  intro a ha
-  have inner_mono : ∀ (a' : FHit) (acc : List (List FHit)) (x y : FHit), Cov acc x y →
-      Cov (hits.foldl (fun gs b => addPair gs a' b) acc) x y := by
-    intro a' acc x y h
-    exact foldl_preserves _ (fun acc => Cov acc x y) hits (fun acc b _ h => addPair_mono acc a' b x y h) acc h
-  exact foldl_establishes (fun gs a => hits.foldl (fun gs b => addPair gs a b) gs)
-    (fun acc a => ∀ b ∈ hits, a.uid ≠ b.uid → 20 < overlapSize a b → Cov acc a b) hits
-    (by
-      intro acc x y h b hb hu ho
-      exact inner_mono x acc y b (h b hb hu ho))
-    (by
-      intro acc x b hb hu ho
-      exact foldl_establishes (fun gs b => addPair gs x b)
-        (fun acc b => x.uid ≠ b.uid → 20 < overlapSize x b → Cov acc x b) hits
-        (fun acc y z h hu ho => addPair_mono acc x y x z (h hu ho))
-        (fun acc y hu ho => addPair_covers acc x y hu ho) acc b hb hu ho)
-    [] a ha
+  intro a ha b hb hu ho
+  apply (overlappingGroups_inv hits).complete a b
+  exact ⟨ha, hb, by simp [competes, overlaps20, hu, ho]⟩
+
+/-! ### `Linked` (the spec's overlapping group) is that closure -/
+
+theorem overlapSize_comm (a b : FHit) : overlapSize a b = overlapSize b a := by
+  simp only [overlapSize, Int.min_comm, Int.max_comm]
+
+theorem competes_symm {a b : FHit} (h : competes a b = true) : competes b a = true := by
+  simp only [competes, overlaps20, Bool.and_eq_true, bne_iff_ne, decide_eq_true_eq] at h ⊢
+  rw [overlapSize_comm b a]
+  exact ⟨fun e => h.1 e.symm, h.2⟩
+
+theorem Linked.trans {hits : List FHit} {x y z : FHit} (h1 : Linked hits x y) (h2 : Linked hits y z) : Linked hits x z := by
+  induction h1 with
+  | refl _ => exact h2
+  | step ha hb hc _ ih => exact Linked.step ha hb hc (ih h2)
+
+theorem Linked.symm {hits : List FHit} {x y : FHit} (h : Linked hits x y) : Linked hits y x := by
+  induction h with
+  | refl _ => exact Linked.refl _
+  | step ha hb hc _ ih => exact ih.trans (Linked.step hb ha (competes_symm hc) (Linked.refl _))
+
+theorem linked_iff_eqv {hits : List FHit} {x y : FHit} : Linked hits x y ↔ Eqv (GeneEdge hits) x y := by
+  constructor
+  · intro h
+    induction h with
+    | refl _ => exact Eqv.refl _
+    | step ha hb hc _ ih => exact Eqv.trans (Eqv.edge ⟨ha, hb, hc⟩) ih
+  · intro h
+    induction h with
+    | refl _ => exact Linked.refl _
+    | edge h => exact Linked.step h.1 h.2.1 h.2.2 (Linked.refl _)
+    | symm _ ih => exact ih.symm
+    | trans _ _ ih1 ih2 => exact ih1.trans ih2
 
 /-! ### the best of a group -/
 
@@ -189,8 +369,7 @@ theorem bestIn_strict_max (t : FHit) : ∀ (b : FHit) (l : List FHit), t ∈ b :
     · rename_i hgt
       apply bestIn_strict_max t h l
       · rcases List.mem_cons.mp ht with rfl | ht'
-        · -- `t = b` cannot be beaten by `h`
-          by_cases hh : h = t
+        · by_cases hh : h = t
           · rw [hh]; simp
           · have := hmax h (by simp) hh; omega
         · exact ht'
@@ -200,8 +379,7 @@ theorem bestIn_strict_max (t : FHit) : ∀ (b : FHit) (l : List FHit), t ∈ b :
       · rcases List.mem_cons.mp ht with rfl | ht'
         · simp
         · rcases List.mem_cons.mp ht' with rfl | ht''
-          · -- `t = h` would have beaten `b`
-            by_cases hb : b = t
+          · by_cases hb : b = t
             · rw [hb]; simp
             · have := hmax b (by simp) hb; omega
           · exact List.mem_cons_of_mem _ ht''
@@ -210,8 +388,91 @@ theorem bestIn_strict_max (t : FHit) : ∀ (b : FHit) (l : List FHit), t ∈ b :
         · exact hmax o (by simp) hne
         · exact hmax o (List.mem_cons_of_mem _ (List.mem_cons_of_mem _ ho')) hne
 
-theorem mem_removedBy {groups : List (List FHit)} {u : Nat} :
-    u ∈ removedBy groups ↔ ∃ g ∈ groups, ∃ best, groupBest g = some best ∧ ∃ h ∈ g, h.uid ≠ best.uid ∧ h.uid = u := by
+/-- nothing in the list scores higher than the best … -/
+theorem bestIn_max : ∀ (b : FHit) (l : List FHit), ∀ o ∈ b :: l, o.sc ≤ (bestIn b l).sc
+  | b, [], o, ho => by simp at ho; simp [bestIn, ho]
+  | b, h :: t, o, ho => by
+    simp only [bestIn]
+    split
+    · rcases List.mem_cons.mp ho with rfl | ho'
+      · have := bestIn_max h t h (by simp); omega
+      · exact bestIn_max h t o ho'
+    · rcases List.mem_cons.mp ho with rfl | ho'
+      · exact bestIn_max o t o (by simp)
+      · rcases List.mem_cons.mp ho' with rfl | ho''
+        · have := bestIn_max b t b (by simp); omega
+        · exact bestIn_max b t o (List.mem_cons_of_mem _ ho'')
+
+/-- … and it is the first of the best: everything before it scores strictly less -/
+theorem bestIn_split : ∀ (b : FHit) (l : List FHit), ∃ l1 l2, b :: l = l1 ++ bestIn b l :: l2 ∧
+    (∀ o ∈ l1, o.sc < (bestIn b l).sc) ∧ (∀ o ∈ l2, o.sc ≤ (bestIn b l).sc)
+  | b, [] => ⟨[], [], by simp [bestIn], by simp, by simp⟩
+  | b, h :: t => by
+    simp only [bestIn]
+    split
+    · rename_i hgt
+      obtain ⟨l1, l2, e, h1, h2⟩ := bestIn_split h t
+      refine ⟨b :: l1, l2, by rw [e]; rfl, ?_, h2⟩
+      intro o ho
+      rcases List.mem_cons.mp ho with rfl | ho
+      · have := bestIn_max h t h (by simp); omega
+      · exact h1 o ho
+    · rename_i hle
+      obtain ⟨l1, l2, e, h1, h2⟩ := bestIn_split b t
+      cases l1 with
+      | nil =>
+        simp only [List.nil_append, List.cons.injEq] at e
+        refine ⟨[], h :: l2, by rw [← e.1, ← e.2]; rfl, by simp, ?_⟩
+        intro o ho
+        rcases List.mem_cons.mp ho with rfl | ho
+        · rw [← e.1]; omega
+        · exact h2 o ho
+      | cons x l1' =>
+        simp only [List.cons_append, List.cons.injEq] at e
+        obtain ⟨rfl, e2⟩ := e
+        refine ⟨b :: h :: l1', l2, by simp only [List.cons_append]; exact congrArg (fun z => b :: h :: z) e2, ?_, h2⟩
+        intro o ho
+        have hb := h1 b (by simp)
+        rcases List.mem_cons.mp ho with rfl | ho
+        · exact hb
+        · rcases List.mem_cons.mp ho with rfl | ho
+          · omega
+          · exact h1 o (List.mem_cons_of_mem _ ho)
+
+/-- in a duplicate-free list, what stands before `x` (as a two-element sub-list) is in the prefix -/
+theorem mem_prefix_of_pair_sublist {l1 l2 : List FHit} {o x : FHit} (hn : (l1 ++ x :: l2).Nodup)
+    (hs : [o, x].Sublist (l1 ++ x :: l2)) : o ∈ l1 := by
+  have hx1 : x ∉ l1 := by
+    intro h
+    have := List.nodup_append.mp hn
+    exact this.2.2 x h x (by simp) rfl
+  have hx2 : x ∉ l2 := by
+    have := (List.nodup_append.mp hn).2.1
+    exact (List.nodup_cons.mp this).1
+  obtain ⟨s1, s2, e, hs1, hs2⟩ := List.sublist_append_iff.mp hs
+  cases s1 with
+  | nil =>
+    simp only [List.nil_append] at e
+    subst e
+    exfalso
+    cases hs2 with
+    | cons _ h => exact hx2 (h.subset (by simp))
+    | cons_cons _ h => exact hx2 (h.subset (by simp))
+  | cons a s1' =>
+    cases s1' with
+    | nil =>
+      simp only [List.cons_append, List.nil_append, List.cons.injEq] at e
+      rw [e.1]; exact hs1.subset (by simp)
+    | cons c s1'' =>
+      simp only [List.cons_append, List.cons.injEq] at e
+      exfalso
+      apply hx1
+      rw [e.2.1]
+      exact hs1.subset (by simp)
+
+theorem mem_removedBy {hits : List FHit} {groups : List (List FHit)} {u : Nat} :
+    u ∈ removedBy hits groups ↔ ∃ g ∈ groups, ∃ best, groupBest (inHitOrder hits g) = some best ∧
+      ∃ h ∈ inHitOrder hits g, h.uid ≠ best.uid ∧ h.uid = u := by
   simp only [removedBy, List.mem_flatMap]
   constructor
   · rintro ⟨g, hg, hu⟩
@@ -227,11 +488,34 @@ theorem mem_removedBy {groups : List (List FHit)} {u : Nat} :
     simp only [List.mem_map, List.mem_filter, bne_iff_ne]
     exact ⟨h, ⟨hh, hne⟩, rfl⟩
 
+theorem mem_inHitOrder {hits g : List FHit} {x : FHit} : x ∈ inHitOrder hits g ↔ x ∈ hits ∧ x ∈ g := by
+  simp [inHitOrder, List.mem_filter]
+
 /-- distinct objects -/
 def UidInj (hits : List FHit) : Prop := ∀ a ∈ hits, ∀ b ∈ hits, a.uid = b.uid → a = b
 
 theorem UidInj.sublist {l m : List FHit} (h : UidInj m) (s : l.Sublist m) : UidInj l :=
   fun a ha b hb e => h a (s.subset ha) b (s.subset hb) e
+
+/-- … each listed once -/
+def UidNodup (hits : List FHit) : Prop := (hits.map (·.uid)).Nodup
+
+theorem UidNodup.nodup {hits : List FHit} (h : UidNodup hits) : hits.Nodup := by
+  unfold UidNodup at h
+  rw [List.Nodup, List.pairwise_map] at h
+  exact h.imp (fun hne e => hne (by rw [e]))
+
+theorem UidNodup.inj {hits : List FHit} (h : UidNodup hits) : UidInj hits := by
+  unfold UidNodup at h
+  rw [List.Nodup, List.pairwise_map] at h
+  intro a ha b hb e
+  rcases pairwise_mem h a ha b hb with h1 | h1 | h1
+  · exact h1
+  · exact absurd e h1
+  · exact absurd e.symm h1
+
+theorem UidNodup.sublist {l m : List FHit} (h : UidNodup m) (s : l.Sublist m) : UidNodup l :=
+  List.Nodup.sublist (s.map _) h
 
 /-! ### one pass -/
 
@@ -241,38 +525,117 @@ theorem filterPass_sublist (hits : List FHit) (eq : List Int) : (filterPass hits
   · exact List.Sublist.refl _
   · exact List.filter_sublist
 
-/-- the strict best of the gene survives a pass -/
-theorem filterPass_keeps_best (hits : List FHit) (eq : List Int) (hu : UidInj hits) (t : FHit) (ht : t ∈ hits)
-    (hmax : ∀ o ∈ hits, o ≠ t → o.sc < t.sc) : t ∈ filterPass hits eq := by
-  simp only [filterPass]
-  split
-  · exact ht
-  · rw [List.mem_filter]
-    refine ⟨ht, ?_⟩
-    simp only [Bool.not_eq_true', List.contains_eq_mem, decide_eq_false_iff_not]
+/-- membership after a pass that ran -/
+theorem mem_filterPass_ran {hits : List FHit} {eq : List Int}
+    (hq : ¬ ((firstOcc (hits.map (·.prof))).filter (fun p => eq.contains p)).length < 2) {h : FHit} :
+    h ∈ filterPass hits eq ↔ h ∈ hits ∧ h.uid ∉ removedBy hits (overlappingGroups hits) := by
+  unfold filterPass
+  simp only []
+  rw [if_neg hq]
+  simp [List.mem_filter]
+
+/-- **what one competition keeps**: a hit survives exactly when no hit of its overlapping group
+    (`Linked`) is preferred to it (`prefers`: higher score, or equal score and earlier in the list) -/
+theorem filterPass_mem_iff (hits : List FHit) (eq : List Int) (hu : UidNodup hits)
+    (hq : ¬ ((firstOcc (hits.map (·.prof))).filter (fun p => eq.contains p)).length < 2) (h : FHit) :
+    h ∈ filterPass hits eq ↔ h ∈ hits ∧ ∀ o ∈ hits, Linked hits h o → prefers hits o h = false := by
+  have inv := overlappingGroups_inv hits
+  have hw := overlappingGroups_within hits
+  have hnd : ∀ g, (inHitOrder hits g).Nodup := fun g => hu.nodup.sublist List.filter_sublist
+  rw [mem_filterPass_ran hq]
+  constructor
+  · rintro ⟨hh, hnr⟩
+    refine ⟨hh, ?_⟩
+    intro o ho hl
+    cases hp : prefers hits o h with
+    | false => rfl
+    | true =>
+      exfalso
+      -- `o ≠ h`, so they share a group
+      have hne : o ≠ h := by
+        intro e
+        subst e
+        simp only [prefers, Bool.or_eq_true, decide_eq_true_eq, Bool.and_eq_true, beq_iff_eq,
+          List.isSublist_iff_sublist] at hp
+        rcases hp with hp | ⟨_, hp⟩
+        · omega
+        · have := hu.nodup.sublist hp
+          simp at this
+      rcases inv.of_eqv (linked_iff_eqv.mp hl) with e | ⟨g, hg, hhg, hog⟩
+      · exact hne e.symm
+      · have hhL : h ∈ inHitOrder hits g := mem_inHitOrder.mpr ⟨hh, hhg⟩
+        have hoL : o ∈ inHitOrder hits g := mem_inHitOrder.mpr ⟨ho, hog⟩
+        cases hL : inHitOrder hits g with
+        | nil => rw [hL] at hhL; simp at hhL
+        | cons b l =>
+          have hbest : groupBest (inHitOrder hits g) = some (bestIn b l) := by rw [hL]; rfl
+          -- `h` was not removed, so it is the best of its group
+          have hbm : bestIn b l ∈ hits := by
+            have := bestIn_mem b l
+            rw [← hL] at this
+            exact (mem_inHitOrder.mp this).1
+          have heq : h = bestIn b l := by
+            by_cases e : h.uid = (bestIn b l).uid
+            · exact hu.inj h hh _ hbm e
+            · exact absurd (mem_removedBy.mpr ⟨g, hg, _, hbest, h, hhL, e, rfl⟩) hnr
+          obtain ⟨l1, l2, esplit, h1, h2⟩ := bestIn_split b l
+          simp only [prefers, Bool.or_eq_true, decide_eq_true_eq, Bool.and_eq_true, beq_iff_eq,
+            List.isSublist_iff_sublist] at hp
+          rw [hL] at hoL
+          rcases hp with hp | ⟨hsc, hsub⟩
+          · have := bestIn_max b l o hoL
+            rw [← heq] at this; omega
+          · -- equal scores and `o` first: then `o` stands before the best in the group's order
+            have hsub' : [o, h].Sublist (inHitOrder hits g) := by
+              have := hsub.filter (fun x => g.contains x)
+              simpa [inHitOrder, hog, hhg] using this
+            rw [hL, esplit, heq] at hsub'
+            have hnd' := hnd g
+            rw [hL, esplit] at hnd'
+            have := h1 o (mem_prefix_of_pair_sublist hnd' hsub')
+            rw [← heq] at this; omega
+  · rintro ⟨hh, hall⟩
+    refine ⟨hh, ?_⟩
     intro hrem
-    obtain ⟨g, hg, best, hb, h, hh, hne, he⟩ := mem_removedBy.mp hrem
-    have hw := overlappingGroups_within hits g hg
-    have hht : h = t := hu h (hw h hh) t ht he
-    subst hht
-    cases g with
-    | nil => simp at hh
+    obtain ⟨g, hg, best, hb, h', hh', hne, he⟩ := mem_removedBy.mp hrem
+    have hh'm := mem_inHitOrder.mp hh'
+    have : h' = h := hu.inj h' hh'm.1 h hh he
+    subst this
+    cases hL : inHitOrder hits g with
+    | nil => rw [hL] at hh'; simp at hh'
     | cons b l =>
+      rw [hL] at hb hh'
       simp only [groupBest, Option.some.injEq] at hb
-      have : bestIn b l = h := bestIn_strict_max h b l hh
-        (fun o ho hne' => hmax o (hw o ho) hne')
-      rw [this] at hb
-      exact hne (by rw [hb])
+      subst hb
+      have hbL : bestIn b l ∈ inHitOrder hits g := by rw [hL]; exact bestIn_mem b l
+      have hbm := mem_inHitOrder.mp hbL
+      have hlink : Linked hits h' (bestIn b l) :=
+        linked_iff_eqv.mpr (inv.sound g hg h' hh'm.2 _ hbm.2)
+      have hnp := hall _ hbm.1 hlink
+      obtain ⟨l1, l2, esplit, h1, h2⟩ := bestIn_split b l
+      simp only [prefers, Bool.or_eq_false_iff, decide_eq_false_iff_not, Bool.and_eq_false_iff,
+        beq_eq_false_iff_ne] at hnp
+      rw [esplit] at hh'
+      rcases List.mem_append.mp hh' with hin | hin
+      · exact hnp.1 (h1 h' hin)
+      · rcases List.mem_cons.mp hin with e | hin
+        · exact hne (by rw [e])
+        · have hle := h2 h' hin
+          rcases hnp.2 with hsc | hsub
+          · omega
+          · rw [← Bool.not_eq_true, List.isSublist_iff_sublist] at hsub
+            apply hsub
+            have : [bestIn b l, h'].Sublist (inHitOrder hits g) := by
+              rw [hL, esplit]
+              exact ((List.singleton_sublist.mpr hin).cons_cons _).trans (List.sublist_append_right _ _)
+            exact this.trans List.filter_sublist
 
 /-- after a pass that ran, no two different survivors overlap by more than 20 -/
 theorem filterPass_separated (hits : List FHit) (eq : List Int) (hu : UidInj hits)
     (hq : ¬ ((firstOcc (hits.map (·.prof))).filter (fun p => eq.contains p)).length < 2) :
     ∀ a ∈ filterPass hits eq, ∀ b ∈ filterPass hits eq, a ≠ b → overlaps20 a b = false := by
   intro a ha b hb hne
-  unfold filterPass at ha hb
-  simp only [] at ha hb
-  rw [if_neg hq] at ha hb
-  simp only [List.mem_filter, Bool.not_eq_true', List.contains_eq_mem, decide_eq_false_iff_not] at ha hb
+  rw [mem_filterPass_ran hq] at ha hb
   have huid : a.uid ≠ b.uid := fun e => hne (hu a ha.1 b hb.1 e)
   cases hov : overlaps20 a b with
   | false => rfl
@@ -280,15 +643,64 @@ theorem filterPass_separated (hits : List FHit) (eq : List Int) (hu : UidInj hit
     exfalso
     simp only [overlaps20, decide_eq_true_eq] at hov
     obtain ⟨g, hg, hag, hbg⟩ := overlappingGroups_covers hits a ha.1 b hb.1 huid hov
-    cases hgb : groupBest g with
-    | none => cases g with
-      | nil => simp at hag
-      | cons x l => simp [groupBest] at hgb
+    have haL : a ∈ inHitOrder hits g := mem_inHitOrder.mpr ⟨ha.1, hag⟩
+    have hbL : b ∈ inHitOrder hits g := mem_inHitOrder.mpr ⟨hb.1, hbg⟩
+    cases hgb : groupBest (inHitOrder hits g) with
+    | none =>
+      cases hL : inHitOrder hits g with
+      | nil => rw [hL] at haL; simp at haL
+      | cons x l => rw [hL] at hgb; simp [groupBest] at hgb
     | some best =>
       by_cases h1 : a.uid = best.uid
       · have : b.uid ≠ best.uid := fun e => huid (h1.trans e.symm)
-        exact hb.2 (mem_removedBy.mpr ⟨g, hg, best, hgb, b, hbg, this, rfl⟩)
-      · exact ha.2 (mem_removedBy.mpr ⟨g, hg, best, hgb, a, hag, h1, rfl⟩)
+        exact hb.2 (mem_removedBy.mpr ⟨g, hg, best, hgb, b, hbL, this, rfl⟩)
+      · exact ha.2 (mem_removedBy.mpr ⟨g, hg, best, hgb, a, haL, h1, rfl⟩)
+
+/-- the first of the best-scoring hits of the gene survives a pass -/
+theorem filterPass_keeps_first_best (hits : List FHit) (eq : List Int) (hu : UidNodup hits) (t : FHit)
+    (l1 l2 : List FHit) (e : hits = l1 ++ t :: l2) (h1 : ∀ o ∈ l1, o.sc < t.sc) (h2 : ∀ o ∈ l2, o.sc ≤ t.sc) :
+    t ∈ filterPass hits eq := by
+  have ht : t ∈ hits := by rw [e]; simp
+  by_cases hq : ((firstOcc (hits.map (·.prof))).filter (fun p => eq.contains p)).length < 2
+  · unfold filterPass; simp only []; rw [if_pos hq]; exact ht
+  · rw [filterPass_mem_iff hits eq hu hq]
+    refine ⟨ht, ?_⟩
+    intro o ho _
+    simp only [prefers, Bool.or_eq_false_iff, decide_eq_false_iff_not, Bool.and_eq_false_iff,
+      beq_eq_false_iff_ne]
+    have hsc : o.sc ≤ t.sc := by
+      rw [e] at ho
+      rcases List.mem_append.mp ho with h | h
+      · have := h1 o h; omega
+      · rcases List.mem_cons.mp h with rfl | h
+        · omega
+        · exact h2 o h
+    refine ⟨by omega, ?_⟩
+    by_cases hs : o.sc = t.sc
+    · right
+      rw [← Bool.not_eq_true]
+      intro hsub
+      rw [List.isSublist_iff_sublist, e] at hsub
+      have hnd := hu.nodup
+      rw [e] at hnd
+      have := h1 o (mem_prefix_of_pair_sublist hnd hsub)
+      omega
+    · exact Or.inl hs
+
+/-- special case kept from the first round: the strictly best hit survives -/
+theorem filterPass_keeps_best (hits : List FHit) (eq : List Int) (hu : UidNodup hits) (t : FHit) (ht : t ∈ hits)
+    (hmax : ∀ o ∈ hits, o ≠ t → o.sc < t.sc) : t ∈ filterPass hits eq := by
+  obtain ⟨l1, l2, e⟩ := List.append_of_mem ht
+  have hnd := hu.nodup
+  rw [e] at hnd
+  have hx1 : t ∉ l1 := fun h => (List.nodup_append.mp hnd).2.2 t h t (by simp) rfl
+  have hx2 : t ∉ l2 := (List.nodup_cons.mp (List.nodup_append.mp hnd).2.1).1
+  apply filterPass_keeps_first_best hits eq hu t l1 l2 e
+  · intro o ho
+    exact hmax o (by rw [e]; simp [ho]) (fun h => hx1 (h ▸ ho))
+  · intro o ho
+    have := hmax o (by rw [e]; simp [ho]) (fun h => hx2 (h ▸ ho))
+    omega
 
 /-! ### counting the profiles of an equivalence group that hit the gene -/
 
@@ -336,7 +748,7 @@ theorem foldl_filterPass_sublist : ∀ (eqs : List (List Int)) (hits : List FHit
     simp only [List.foldl_cons]
     exact (foldl_filterPass_sublist eqs _).trans (filterPass_sublist hits g)
 
-theorem foldl_filterPass_keeps_best : ∀ (eqs : List (List Int)) (hits : List FHit), UidInj hits → ∀ t ∈ hits,
+theorem foldl_filterPass_keeps_best : ∀ (eqs : List (List Int)) (hits : List FHit), UidNodup hits → ∀ t ∈ hits,
     (∀ o ∈ hits, o ≠ t → o.sc < t.sc) → t ∈ eqs.foldl filterPass hits
   | [], hits, _, t, ht, _ => by simpa using ht
   | g :: eqs, hits, hu, t, ht, hmax => by
@@ -379,5 +791,119 @@ theorem foldl_filterPass_untouched : ∀ (eqs : List (List Int)) (hits : List FH
       exact if_pos h3
     rw [hg]
     exact foldl_filterPass_untouched eqs hits (fun g' hg' => hq g' (List.mem_cons_of_mem _ hg'))
+
+/-! ### the gene never loses all its hits; the survivors do not depend on the order of the hits -/
+
+theorem filterPass_eq_filter (hits : List FHit) (eq : List Int) : ∃ p : FHit → Bool, filterPass hits eq = hits.filter p := by
+  unfold filterPass
+  simp only []
+  split
+  · exact ⟨fun _ => true, (List.filter_eq_self.mpr (fun _ _ => rfl)).symm⟩
+  · exact ⟨_, rfl⟩
+
+theorem foldl_filterPass_keeps_first_best : ∀ (eqs : List (List Int)) (hits : List FHit), UidNodup hits →
+    ∀ (t : FHit) (l1 l2 : List FHit), hits = l1 ++ t :: l2 → (∀ o ∈ l1, o.sc < t.sc) → (∀ o ∈ l2, o.sc ≤ t.sc) →
+    t ∈ eqs.foldl filterPass hits
+  | [], hits, _, t, l1, l2, e, _, _ => by rw [e]; simp
+  | g :: eqs, hits, hu, t, l1, l2, e, h1, h2 => by
+    simp only [List.foldl_cons]
+    have ht := filterPass_keeps_first_best hits g hu t l1 l2 e h1 h2
+    obtain ⟨p, hp⟩ := filterPass_eq_filter hits g
+    have hpt : p t = true := by
+      rw [hp, List.mem_filter] at ht; exact ht.2
+    apply foldl_filterPass_keeps_first_best eqs _ (hu.sublist (filterPass_sublist hits g)) t
+      (l1.filter p) (l2.filter p)
+    · rw [hp, e, List.filter_append, List.filter_cons, if_pos hpt]
+    · intro o ho; exact h1 o (List.mem_filter.mp ho).1
+    · intro o ho; exact h2 o (List.mem_filter.mp ho).1
+
+theorem foldl_filterPass_ne_nil (eqs : List (List Int)) (hits : List FHit) (hu : UidNodup hits) (hne : hits ≠ []) :
+    eqs.foldl filterPass hits ≠ [] := by
+  cases hits with
+  | nil => exact absurd rfl hne
+  | cons b l =>
+    obtain ⟨l1, l2, e, h1, h2⟩ := bestIn_split b l
+    have := foldl_filterPass_keeps_first_best eqs (b :: l) hu (bestIn b l) l1 l2 e h1 h2
+    intro hnil
+    rw [hnil] at this
+    simp at this
+
+/-- no two different hits of the gene have the same bitscore -/
+def NoTies (hits : List FHit) : Prop := ∀ a ∈ hits, ∀ b ∈ hits, a.sc = b.sc → a = b
+
+theorem Linked.of_subset {l₁ l₂ : List FHit} (h : ∀ x ∈ l₁, x ∈ l₂) {x y : FHit} (hl : Linked l₁ x y) : Linked l₂ x y := by
+  induction hl with
+  | refl _ => exact Linked.refl _
+  | step ha hb hc _ ih => exact Linked.step (h _ ha) (h _ hb) hc ih
+
+theorem prefers_of_noTies {hits : List FHit} (hn : NoTies hits) (hd : hits.Nodup) {o h : FHit}
+    (ho : o ∈ hits) (hh : h ∈ hits) : prefers hits o h = decide (h.sc < o.sc) := by
+  simp only [prefers]
+  by_cases e : o.sc = h.sc
+  · have : o = h := hn o ho h hh e
+    subst this
+    have : [o, o].isSublist hits = false := by
+      rw [← Bool.not_eq_true, List.isSublist_iff_sublist]
+      intro hs
+      have := hd.sublist hs
+      simp at this
+    simp [this]
+  · simp [e]
+
+theorem presentCount_perm {l₁ l₂ : List FHit} (h : l₁.Perm l₂) (eq : List Int) : presentCount l₁ eq = presentCount l₂ eq := by
+  have aux : ∀ {a b : List FHit}, (∀ x ∈ a, x ∈ b) → presentCount a eq ≤ presentCount b eq := by
+    intro a b hab
+    apply List.Nodup.length_le_of_subset ((firstOcc_nodup _).sublist List.filter_sublist)
+    intro p hp
+    simp only [List.mem_filter, mem_firstOcc, List.mem_map] at hp ⊢
+    obtain ⟨⟨x, hx, hxp⟩, hpe⟩ := hp
+    exact ⟨⟨x, hab x hx, hxp⟩, hpe⟩
+  exact Nat.le_antisymm (aux fun x hx => h.mem_iff.mp hx) (aux fun x hx => h.mem_iff.mpr hx)
+
+theorem filterPass_perm {l₁ l₂ : List FHit} (h : l₁.Perm l₂) (hu : UidNodup l₁) (hn : NoTies l₁) (eq : List Int) :
+    (filterPass l₁ eq).Perm (filterPass l₂ eq) := by
+  have hu2 : UidNodup l₂ := (h.map _).nodup_iff.mp hu
+  have hn2 : NoTies l₂ := fun a ha b hb => hn a (h.mem_iff.mpr ha) b (h.mem_iff.mpr hb)
+  have hcount := presentCount_perm h eq
+  unfold presentCount at hcount
+  by_cases hq : ((firstOcc (l₁.map (·.prof))).filter (fun p => eq.contains p)).length < 2
+  · have hq2 : ((firstOcc (l₂.map (·.prof))).filter (fun p => eq.contains p)).length < 2 := by omega
+    unfold filterPass
+    simp only []
+    rw [if_pos hq, if_pos hq2]
+    exact h
+  · have hq2 : ¬ ((firstOcc (l₂.map (·.prof))).filter (fun p => eq.contains p)).length < 2 := by omega
+    rw [List.perm_ext_iff_of_nodup (hu.nodup.sublist (filterPass_sublist l₁ eq))
+      (hu2.nodup.sublist (filterPass_sublist l₂ eq))]
+    intro x
+    rw [filterPass_mem_iff l₁ eq hu hq, filterPass_mem_iff l₂ eq hu2 hq2]
+    constructor
+    · rintro ⟨hx, hall⟩
+      refine ⟨h.mem_iff.mp hx, ?_⟩
+      intro o ho hl
+      have ho1 := h.mem_iff.mpr ho
+      have := hall o ho1 (hl.of_subset fun y hy => h.mem_iff.mpr hy)
+      rw [prefers_of_noTies hn hu.nodup ho1 hx] at this
+      rw [prefers_of_noTies hn2 hu2.nodup ho (h.mem_iff.mp hx)]
+      exact this
+    · rintro ⟨hx, hall⟩
+      refine ⟨h.mem_iff.mpr hx, ?_⟩
+      intro o ho hl
+      have ho2 := h.mem_iff.mp ho
+      have := hall o ho2 (hl.of_subset fun y hy => h.mem_iff.mp hy)
+      rw [prefers_of_noTies hn2 hu2.nodup ho2 hx] at this
+      rw [prefers_of_noTies hn hu.nodup ho (h.mem_iff.mpr hx)]
+      exact this
+
+theorem NoTies.sublist {l m : List FHit} (h : NoTies m) (s : l.Sublist m) : NoTies l :=
+  fun a ha b hb => h a (s.subset ha) b (s.subset hb)
+
+theorem foldl_filterPass_perm : ∀ (eqs : List (List Int)) {l₁ l₂ : List FHit}, l₁.Perm l₂ → UidNodup l₁ → NoTies l₁ →
+    (eqs.foldl filterPass l₁).Perm (eqs.foldl filterPass l₂)
+  | [], _, _, h, _, _ => by simpa using h
+  | g :: eqs, l₁, l₂, h, hu, hn => by
+    simp only [List.foldl_cons]
+    exact foldl_filterPass_perm eqs (filterPass_perm h hu hn g)
+      (hu.sublist (filterPass_sublist l₁ g)) (hn.sublist (filterPass_sublist l₁ g))
 
 end ASV.HitFilter
